@@ -105,7 +105,11 @@ func (s *scope) runInitializers() error {
 	s.rootProvider.voidReturnScopedDescriptorsMu.RUnlock()
 
 	for _, descriptor := range initializers {
-		if _, err := s.createInstance(descriptor); err != nil {
+		// Through the scope's cache: a named initializer that another
+		// initializer (or one of its dependencies) depends on has already run
+		// by the time the loop reaches it, and runs once per scope
+		key := instanceKey{Type: descriptor.Type, Key: descriptor.Key, Group: descriptor.Group}
+		if _, err := s.resolve(key, descriptor); err != nil {
 			return &ResolutionError{
 				ServiceType: descriptor.Type,
 				ServiceKey:  descriptor.Key,
